@@ -36,7 +36,7 @@ FU = 'utils.func_utils'
 
 
 def run(ctx: Ctx):
-  for r in (r1, r2, r3, r4):
+  for r in (r1, r2, r3, r4, r5):
     ctx.guard(r)
 
 
@@ -364,11 +364,110 @@ def r4(ctx: Ctx):
   ctx.floor(rule, 5)
 
 
+def _memo_fields(repo, ci) -> set[str]:
+  """Fields used as a memo: `if self.F is not None: return self.F` + a store."""
+  from mlmverif import pat
+  out = set()
+  for c_ in repo.mro(ci):
+    for m in c_.methods.values():
+      for x in walk_no_nested(m.node):
+        if isinstance(x, ast.If) and isinstance(x.test, ast.Compare) and isinstance(
+            x.test.ops[0], ast.IsNot) and is_self_attr(x.test.left) and x.body and isinstance(
+                x.body[0], ast.Return) and unparse(x.body[0].value) == unparse(x.test.left):
+          f = x.test.left.attr
+          stored = any(
+              (isinstance(y, ast.Assign) and any(is_self_attr(t, f) for t in y.targets)) or (
+                  isinstance(y, ast.Call) and unparse(y.func) in ('object.__setattr__', 'setattr')
+                  and len(y.args) == 3 and getattr(y.args[1], 'value', None) == f)
+              for y in walk_no_nested(m.node))
+          if stored:
+            out.add(f)
+  return out
+
+
+def r5(ctx: Ctx):
+  rule = 'R-C17-5'
+  ctx.rule(rule, '"also after a serialisation round trip": a custom'
+           ' __getstate__ of the lazy classes (lazy_fns, tree_fns) returns a'
+           ' copy of the whole instance dictionary; a key it removes or'
+           ' overwrites must be a derived member (a cached property, or a memo'
+           ' field that is recomputed when None; never another declared'
+           ' field) — dropping a declared field (e.g. the traced callable)'
+           ' makes the unpickled expression evaluate to something else')
+  repo = ctx.repo
+  n = 0
+  for mod in (LF, 'chainables.tree_fns'):
+    mi = repo.module(mod)
+    for ci in mi.classes.values():
+      gs = ci.methods.get('__getstate__')
+      if gs is None:
+        continue
+      n += 1
+      memo = _memo_fields(repo, ci)
+      fields = {f.name for c_ in repo.mro(ci) for f in c_.fields} - memo
+      full = ('dict(self.__dict__)', 'self.__dict__.copy()', '{**self.__dict__}',
+              'copy.copy(self.__dict__)', 'self.__dict__')
+      sv = None
+      for x in walk_no_nested(gs.node):
+        if isinstance(x, ast.Assign) and isinstance(x.targets[0], ast.Name) and unparse(x.value) in full:
+          sv = x.targets[0].id
+      rets = [x for x in walk_no_nested(gs.node) if isinstance(x, ast.Return) and x.value is not None]
+      if not rets:
+        raise AnalysisError(f'{rule}: {ci.name}.__getstate__ returns nothing')
+      bad = None
+      for r_ in rets:
+        txt = unparse(r_.value)
+        if txt in full or (sv is not None and txt == sv):
+          continue
+        bad = (r_, f'returns `{txt[:50]}`, not a copy of the instance dictionary')
+      altered = []
+      if sv is not None:
+        for x in walk_no_nested(gs.node):
+          if isinstance(x, ast.Call) and isinstance(x.func, ast.Attribute) and x.func.attr in (
+              'pop', '__delitem__') and unparse(x.func.value) == sv and x.args:
+            altered.append((x, x.args[0]))
+          if isinstance(x, ast.Delete):
+            for t in x.targets:
+              if isinstance(t, ast.Subscript) and unparse(t.value) == sv:
+                altered.append((x, t.slice))
+          if isinstance(x, (ast.Assign, ast.AugAssign)):
+            for t in (x.targets if isinstance(x, ast.Assign) else [x.target]):
+              if isinstance(t, ast.Subscript) and unparse(t.value) == sv:
+                altered.append((x, t.slice))
+          if isinstance(x, ast.Call) and isinstance(x.func, ast.Attribute) and x.func.attr in (
+              'clear', 'update', 'popitem') and unparse(x.func.value) == sv:
+            bad = (x, f'rewrites the state with `{unparse(x)[:50]}`')
+      for node, key in altered:
+        if not (isinstance(key, ast.Constant) and isinstance(key.value, str)):
+          bad = (node, f'alters a computed key `{unparse(key)[:30]}`')
+        elif key.value in fields:
+          bad = (node, f'drops or overwrites the declared field {key.value!r}')
+      if bad:
+        node, why = bad
+        ctx.fail(rule, gs, f'{ci.name}.__getstate__ keeps every declared field',
+                 f'{ci.name}.__getstate__ {why}: the object that arrives after a'
+                 ' pickle round trip (every remote call pickles its lazy'
+                 ' expression) no longer describes the same expression', node=node)
+      else:
+        ctx.ok(rule, gs, f'{ci.name}.__getstate__ keeps all {len(fields)} declared fields'
+               f' ({len(altered)} derived key(s) dropped)', gs.node)
+  ctx.floor(rule, 2, n)
+
+
 from mlmverif.selfcheck import B, OK  # noqa: E402
 
 _L = 'chainables/lazy_fns.py'
 _F = 'utils/func_utils.py'
 VARIANTS = [
+    B('getstate-drops-value-of-cached', _L,
+      '  def __getstate__(self):\n    return dict(self.__dict__)',
+      "  def __getstate__(self):\n    state = dict(self.__dict__)\n    if self._cache_result:\n      state['value'] = None\n    return state",
+      'R-C17-5'),
+    OK('getstate-via-local-copy', _L,
+       '  def __getstate__(self):\n    return dict(self.__dict__)',
+       '  def __getstate__(self):\n    state = self.__dict__.copy()\n    return state'),
+    B('treefn-getstate-drops-fn', 'chainables/tree_fns.py',
+      "    state.pop('_lazy', None)\n", "    state.pop('_lazy', None)\n    state.pop('fn', None)\n", 'R-C17-5'),
     B('kwargs-sorted', _L, '        kwargs=tuple((kwargs or {}).items()),',
       '        kwargs=tuple(sorted((kwargs or {}).items())),', 'R-C17-2'),
     B('uncached-reads-cache', _L, '      else:\n        return fn(x)\n\n    wrapped_fn.cache_info',
